@@ -55,6 +55,15 @@ CHECKS = {
  "C16": ("SEQ", "model_checking", "4 (C16)",
          "Disabled build (fastrace without `enable`, separate workspace so that no feature unification happens): all call sequences up to length 3 (4) over 30 public operations; after every call: no closure ran, no reporter call, no new thread, every query None/empty, #[trace] functions unchanged. Enabled build: generated call sequences over non-recording spans (no-op-derived, scope-less local operations) with every closure counted, run with a reporter and in a process that never installs one, plus a probe that creates spans before set_reporter and uses them afterwards.",
          "explicit enumeration of call sequences in both feature configurations against closure counters / reporter log / thread count"),
+ "C12": ("INPUT", "exploration", "4 (C12)",
+         "Bounded-exhaustive input enumeration: contexts over boundary lattices of 128-bit x 64-bit ids x sampled (encode form + decode round trip), every string up to length 5 (6) over a 9-symbol boundary alphabet and the product of per-field menus against an independent reference parser (None exactly where the statement requires it, the right value wherever Some), Display/FromStr/serde round trips of both id types. Exhaustive over the stated alphabets, not over all 2^193 contexts.",
+         "exhaustive enumeration of a bounded input space against an independent reference decoder"),
+ "C19": ("INPUT", "exploration", "4 (C19)",
+         "Record batches over the product of field alphabets (ids with top bits, boundary strings, duplicate keys, events, boundary times), batches of <= 3 records, empty and 1000-record batches, driven through the public Reporter::report of each crate; the bytes are received on loopback (UDP, HTTP) or in a capturing SpanExporter and decoded by independent Thrift-compact / MessagePack decoders written for this harness; every field compared with the target format's image of the source.",
+         "exhaustive enumeration of a bounded input space against independent wire-format decoders"),
+ "C20": ("INPUT", "exploration", "4 (C20)",
+         "All batches of <= 5 (6) spans over 5 size classes, boundary walks of single spans and pairs across the 8000-byte limit, long batches with oversize spans at front/middle/end; oracle: every datagram below 8000 bytes and well-formed, received span ids = input minus spans that do not fit alone (decided differentially), in order, none twice, report() returns within the deadline.",
+         "exhaustive enumeration of a bounded input space with a differential oracle"),
 }
 
 props = [json.loads(l) for l in open("properties.jsonl")]
@@ -71,6 +80,8 @@ m = {
    "add_only": True,
  },
  "engines": [
+   {"name": "INPUT", "path": "harness/vx-codec, harness/vx-report", "serves_properties": ["C12", "C19", "C20"],
+    "kind_free_text": "bounded-exhaustive input enumeration through the public API against independent reference decoders (traceparent parser, Thrift compact, MessagePack), loopback UDP/HTTP sinks, capturing OpenTelemetry exporter"},
    {"name": "SCHED", "path": "harness/vx-core, harness/vx-sched", "serves_properties": sorted(k for k, v in CHECKS.items() if v[0] in ("SCHED", "SEQ")),
     "kind_free_text": "hand-rolled stateless model checker: real OS threads serialised by a baton, scheduling points from cfg(fastrace_verif) hooks in fastrace, depth-first enumeration of all schedules up to a preemption bound (or all interleavings for small sequential programs), reference model + oracles in plain Rust, 16 worker processes"},
  ],
@@ -82,6 +93,7 @@ for p in props:
     i = p["id"]
     if i in CHECKS:
         eng, level, ref, text, tech = CHECKS[i]
+        note = SCHED_NOTE if eng in ("SCHED", "SEQ") else "Trusted: the harness's own reference decoders/parsers (written independently of the code under test); loopback sockets deliver what was sent (UDP drop counter checked); bounds as stated in the evidence file."
         m["checks"].append({
             "property_id": i,
             "quick_cmd": f"./check {i} quick",
@@ -90,7 +102,7 @@ for p in props:
             "replay_cmd_template": "./check replay {path}",
             "engine": eng,
             "level_claimed": {"category": level, "text": text, "design_ref": ref},
-            "level_note": SCHED_NOTE,
+            "level_note": note,
             "technique": tech,
         })
     else:
